@@ -113,6 +113,9 @@ func c13Payloads() []c13Payload {
 	mFull("linear-last", harness.Denom, start, func() []*mtypes.Minter { return minters(linLast) })
 	mPart("valid3", start, func() []*mtypes.Minter { return minters(valid3) })
 	mPart("valid3-start-later", start.Add(20*time.Second), func() []*mtypes.Minter { return minters(valid3) })
+	// a start time moved far into the future (minting pauses), and a configuration that has period 1 only
+	mPart("valid3-start-far", start.Add(1000*time.Second), func() []*mtypes.Minter { return minters(valid3) })
+	mPart("only-id-1", start, func() []*mtypes.Minter { return minters(mintCfg{Periods: []mp{{Kind: ref.NoMint}}}) })
 	mPart("ids-2-3", start, from2)
 	mPart("unordered", start, unordered)
 	mPart("gap", start, gap)
